@@ -11,7 +11,8 @@ CFG = {
             "the real SignTx under Frontier, Homestead and EIP-155 signers over a chain-id lattice (1, 110 = the V 255/256 straddle, the real networks, "
             "2^63-19..2^63+1 and 2^64-19..2^64+1 = the uint64 paths, 2^70, 2^128, 2^200, ~2^254, random, and 0); per signed tx: ~30 single-field / "
             "signature-component mutations (incl. chain-id shift, S->N-S, the malleated twin), every other signer kind / neighbouring chain id, single-bit "
-            "flips of the RLP encoding (all bits for every 12th tx in quick, every 2nd in thorough, a 48-bit sample otherwise), RLP and JSON round trips, malformed JSON spellings per field, "
+            "flips of the RLP encoding (all bits for every 12th tx in quick, every 2nd in thorough, a 48-bit sample otherwise), RLP and JSON round trips, malformed JSON spellings per field, JSON inputs with an inconsistent `hash` member (edited / zero / another tx's / removed, "
+            "and each signed field edited with the advertised hash kept: Hash() of the decoded object must be the Keccak of its own re-encoding and survive an RLP round trip), "
             "Sender sequences on ONE object under changing signers (cache), a V x R x S boundary lattice (0, 1, N/2-1, N/2, N/2+1, N-1, N, N+1, 2^256-1, 2^256; "
             "V around 27/28, 35+2c, 2c-19 (negative V'), 255/256, 2^64) under all three signer kinds, MakeSigner on the built-in configs around fork "
             "heights, TxPool.AddRemote and core.ApplyTransaction acceptance of valid / foreign-chain / high-S twins. "
